@@ -30,29 +30,16 @@ theorem total_push_le (r : Range) (h : List Range) : total (push r h) ≤ total 
       · simp [total]; omega
       · simp [total] at *; omega
 
-inductive Ev where
-  | split (o a b c : Range)
-  deriving Repr
-
-def intersects (x y : Range) : Bool := y.b ≤ x.e   -- x ≤ y in heap order
-
-/-- Normalize main loop on the heap model. Returns the finished (disjoint) ranges and the
-callback log. -/
-def normalize (h : List Range) (hv : ∀ r ∈ h, r.valid) : List Range × List Ev :=
-  match h with
-  | [] => ([], [])
-  | [x] => ([x], [])
-  | x :: y :: rest =>
-    if ¬ intersects x y then
-      let (out, evs) := normalize (y :: rest) (by intro r hr; exact hv r (by simp [hr]))
-      (x :: out, evs)
-    else if x.b = y.b ∧ x.e < y.e then
-      let a : Range := ⟨x.e + 1, y.e⟩
-      let (out, evs) := normalize (push a (push x rest)) sorry
-      (out, .split y x a a :: evs)
-    else ([], [])
-termination_by total h
-decreasing_by
-  all_goals sorry
+/-
+Plan for the loop itself (not part of this spike): `normalize` pops the least range `x`, peeks
+the next `y`, and in each of the four geometric cases replaces ranges by strictly shorter pieces:
+  x.b = y.b ∧ x.e < y.e :  y ↦ x, [x.e+1, y.e]                    total decreases by len x
+  x.b < y.b ∧ x.e = y.e :  x ↦ [x.b, y.b-1], y                    total decreases by len y
+  x.b < y.b ∧ x.e < y.e :  x,y ↦ [x.b,y.b-1],[y.b,x.e],[x.e+1,y.e] total decreases by overlap
+  x.b < y.b ∧ x.e > y.e :  x ↦ [x.b,y.b-1], y, [y.e+1,x.e]        total decreases by len y
+  disjoint               :  x leaves the heap                      total decreases by len x
+so `total` (sum of lengths, bounded above via `total_push_le` for every push) is a termination
+measure for all lists of valid ranges.
+-/
 
 end Rang3
